@@ -15,13 +15,13 @@ witness, and what remains order-free is proved as `…_partial`:
   put_balance                 (balance.cc 375-379) xml <amount> elements in hash order                 REPAIRED 36e5f68
   posts_commodities_iterator  (iterators.cc 141)   prices / pricedb groups in address order            REPAIRED fc0aedd
   top_amount                  (report.cc 517-521)  first entry of the hash map                         REPAIRED c1ef985
-  value_t::is_less_than       (value.cc 965-975)   balance < amount: first deciding component / throw  known finding
+  value_t::is_less_than       (value.cc 965-975)   balance < amount: first deciding component / throw  REPAIRED 89c0598
   balance_t::strip_annotations (balance.cc 263-271) merged lots keep the FIRST lot's keep_precision    known finding
-The four repaired ones are read from the source into `Gen` flags: the leak
+The five repaired ones are read from the source into `Gen` flags: the leak
 theorems are stated under the OLD value of the flag, the `…_fixed` theorems are
 obligations that the working tree has the repaired form, and
 `xml_balance_order_free`, `top_amount_order_free`, `collapse_order_free`,
-`prices_order_free` are the unconditional order-freedom results that follow.
+`prices_order_free`, `lt_balance_order_free` are the unconditional order-freedom results that follow.
 
 Uninitialised reads and wall-clock dependence cannot be exhibited by a model;
 they are only EXERCISED by the runtime part of tools/props/c19.py.
@@ -95,7 +95,8 @@ theorem C19.balance_den_perm (b b' : Balance) (hp : b.Perm b') (c : Comm) : b.de
 theorem C19.isRealZero_perm (b b' : Balance) (hp : b.Perm b') : b.isRealZero = b'.isRealZero :=
   hp.all_eq
 
-/-- `balance > amount` (value.cc 1111-1121) never throws and is independent of σ. -/
+/-- is_greater_than's BALANCE row (value.cc; since 89c0598 it walks sorted_amounts too) never throws and is
+    independent of the order it is walked in, sorted or not. -/
 theorem C19.gt_balance_order_free (b b' : Balance) (v : Value)
     (hv : (∃ n, v = .int n) ∨ (∃ a, v = .amt a)) (hp : b.Perm b') : gtAll b v = gtAll b' v := by
   rw [gtAll_eq_all v hv b, gtAll_eq_all v hv b', hp.all_eq]
@@ -220,35 +221,44 @@ theorem C19.xml_balance_order_free_of_sorted (h : Gen.putBalanceSorted = true) :
   simp only [putBalance, h, if_true]
   rw [C19.sortedAmounts_perm b b' hp hd]
 
-/-! ### balance < amount: first deciding component -/
+/-! ### balance < amount: first deciding component
+
+value.cc is_less_than, BALANCE row.  The pinned tree walked the hash map as it came and
+stopped at the first deciding component (or threw on the first incomparable one);
+89c0598 walks `sorted_amounts`.  `Value.lt` walks `Value.ltWalkOrder x`, which is the
+sorted walk exactly when `Gen.ltBalanceSorted` (read from the source by tools/extract.py). -/
 
 def C19.LtBalanceOrderFree : Prop :=
-  ∀ (b b' : Balance) (v : Value), b.Perm b' → b.Pairwise (fun x y => x.comm ≠ y.comm) →
-    Value.lt (.bal b) v = Value.lt (.bal b') v
+  ∀ (b b' : Balance) (v : Value), ((∃ n, v = .int n) ∨ (∃ a, v = .amt a)) → b.Perm b' →
+    b.Pairwise (fun x y => x.comm ≠ y.comm) → Value.lt (.bal b) v = Value.lt (.bal b') v
 
-/-- `(2.50 EUR + 3 USD) < 2.50 EUR` is `false` when the hash map yields EUR first
-    and throws "different commodities" when it yields USD first. -/
-theorem C19.lt_balance_order_leaks : ¬ C19.LtBalanceOrderFree := by
+/-- Regression obligation: the working tree walks the sorted amounts. -/
+theorem C19.lt_balance_sorted_flag : Gen.ltBalanceSorted = true := by decide
+
+/-- With the UNSORTED walk `(2.50 EUR + 3 USD) < 2.50 EUR` is `false` when the hash map
+    yields EUR first and throws "different commodities" when it yields USD first. -/
+theorem C19.lt_balance_order_leaks (h : Gen.ltBalanceSorted = false) : ¬ C19.LtBalanceOrderFree := by
   intro hfree
   have := hfree [⟨5 / 2, 2, false, "EUR"⟩, ⟨3, 0, false, "USD"⟩] [⟨3, 0, false, "USD"⟩, ⟨5 / 2, 2, false, "EUR"⟩]
-    (.amt ⟨5 / 2, 2, false, "EUR"⟩) (List.Perm.swap _ _ _) (by decide)
+    (.amt ⟨5 / 2, 2, false, "EUR"⟩) (Or.inr ⟨_, rfl⟩) (List.Perm.swap _ _ _) (by decide)
+  simp only [Value.lt, Value.ltWalkOrder, h] at this
   revert this
   decide +kernel
 
-/-- What IS order-free: when no component comparison throws (every component is
-    of the right operand's commodity or one side has none), the answer is
-    "non-empty and every component is below". -/
-theorem C19.lt_balance_order_free_partial (b b' : Balance) (v : Value) (hp : b.Perm b')
-    (hok : ∀ c ∈ b, ∃ r, Value.gtAmt v c = .ok r) :
-    Value.lt.ltAll b v = Value.lt.ltAll b' v := by
-  have hok' : ∀ c ∈ b', ∃ r, Value.gtAmt v c = .ok r := fun c hc => hok c (hp.mem_iff.mpr hc)
-  rw [ltAll_eq_all v b hok, ltAll_eq_all v b' hok', hp.all_eq]
-  cases b with
-  | nil => rw [List.Perm.nil_eq hp]
-  | cons x xs =>
-    cases b' with
-    | nil => exact absurd hp.symm (List.not_perm_nil_cons _ _) |> False.elim
-    | cons y ys => rfl
+/-- With the sorted walk the comparison does not depend on the enumeration of the balance
+    (answer AND which "different commodities" error is raised). -/
+theorem C19.lt_balance_order_free_of_sorted (h : Gen.ltBalanceSorted = true) : C19.LtBalanceOrderFree := by
+  intro b b' v hv hp hd
+  have hs : Value.ltWalkOrder b = Value.ltWalkOrder b' := by
+    simp only [Value.ltWalkOrder, h, if_true]
+    exact sortByComm_eq_of_perm hp hd
+  rcases hv with ⟨n, rfl⟩ | ⟨a, rfl⟩
+  · simp only [Value.lt, hs]
+  · simp only [Value.lt, hs]
+
+/-- `balance < amount` / `balance < integer` is order-free on the working tree. -/
+theorem C19.lt_balance_order_free : C19.LtBalanceOrderFree :=
+  C19.lt_balance_order_free_of_sorted C19.lt_balance_sorted_flag
 
 /-! ### strip_annotations: the merged lot keeps the first lot's keep_precision flag -/
 
@@ -436,9 +446,10 @@ example : finalizeCosts (fun _ => 2) "AAA" [⟨15, 0, false, "AAA"⟩, ⟨-10, 2
 example : finalizeCosts (fun _ => 2) "AAA" [⟨-10, 2, false, "$"⟩, ⟨15, 0, false, "AAA"⟩]
     [⟨10, 0, false, "AAA"⟩, ⟨-10, 2, false, "$"⟩, ⟨5, 0, false, "AAA"⟩]
     = some [some ("$", 20 / 3), none, some ("$", 10 / 3)] := by decide +kernel
-/-- the guard of lt_balance_order_free_partial is satisfiable by a real two-component balance -/
-example : ∀ c ∈ ([⟨5 / 2, 2, false, "EUR"⟩, ⟨3, 0, false, ""⟩] : Balance),
-    ∃ r, Value.gtAmt (.amt ⟨4, 2, false, "EUR"⟩) c = .ok r := by decide +kernel
+/-- `(2.50 EUR + 3 USD) < 2.50 EUR` in both enumerations: the sorted walk meets EUR first and answers `false` -/
+example : Value.lt (.bal [⟨5 / 2, 2, false, "EUR"⟩, ⟨3, 0, false, "USD"⟩]) (.amt ⟨5 / 2, 2, false, "EUR"⟩) = .ok false
+    ∧ Value.lt (.bal [⟨3, 0, false, "USD"⟩, ⟨5 / 2, 2, false, "EUR"⟩]) (.amt ⟨5 / 2, 2, false, "EUR"⟩) = .ok false := by
+  decide +kernel
 /-- subtotal rows of three accounts found in two orders -/
 example : emitByName [("Income", 1), ("Assets:Cash", 2), ("Assets", 3)] = [("Assets", 3), ("Assets:Cash", 2), ("Income", 1)]
     ∧ emitByName [("Assets", 3), ("Income", 1), ("Assets:Cash", 2)] = [("Assets", 3), ("Assets:Cash", 2), ("Income", 1)] := by
